@@ -698,3 +698,180 @@ Proof.
   destruct x, y; cbn; try discriminate; [|reflexivity].
   intro E. f_equal. apply veqb_sound with (f := f). exact E.
 Qed.
+
+(* ---- what a decoder accepts is in the encoder's domain --------------------------------------
+   For formats whose counts are all checked against constants ([wfmt]): every value
+   decoded from a byte string satisfies [wf] — every declared bound, range check and
+   guard of the format holds of it.  (The accept set is inside the domain; with
+   [decode_encode] the two are linked in both directions.) *)
+
+Fixpoint wfmt {A} (f : fmt A) : Prop :=
+  match f with
+  | FConst v is_v _ => is_v v = true
+  | FSeq fa fb => wfmt fa /\ wfmt fb
+  | FBind fa k => wfmt fa /\ forall a, wfmt (k a)
+  | FMapD f to from dom _ => wfmt f /\ forall a, wf f a = true -> dom (to a) = true /\ from (to a) = Some a
+  | FGuard f ok => (forall v, ok v = false) \/ wfmt f
+  | FOpt f => wfmt f
+  | FList ck max f => ck_rem ck = false /\ max < two64 - 1 /\ forall i, wfmt (f i)
+  | _ => True
+  end.
+
+Lemma ulimit_ge2 : forall f, 2 <= ulimit (S f).
+Proof.
+  induction f as [|f IH]; [cbn; lia|]. rewrite ulimit_S. lia.
+Qed.
+
+Lemma uvar_loop_value : forall fuel mul acc a v r,
+  uvar_loop fuel mul acc a = Some (v, r) -> all_bytes a = true ->
+  (exists x, v = acc + mul * x /\ x < ulimit fuel) /\ all_bytes r = true.
+Proof.
+  induction fuel as [|f IH]; intros mul acc a v r H B; [discriminate|].
+  destruct a as [|b a]; [discriminate|].
+  cbn [all_bytes forallb] in B. apply andb_true_iff in B. destruct B as [Bb Ba].
+  unfold is_byte in Bb. cbn [uvar_loop] in H. destruct (b <? 128) eqn:Hb.
+  - destruct f as [|f'].
+    + destruct (1 <? b) eqn:H1; [discriminate|]. inversion H; subst. split; [|exact Ba].
+      exists b. split; [lia|cbn; lia].
+    + inversion H; subst. split; [|exact Ba]. exists b. split; [lia|].
+      rewrite ulimit_S. pose proof (ulimit_ge2 f'). lia.
+  - apply IH in H; [|exact Ba]. destruct H as [(x & Ev & Hx) Br]. split; [|exact Br].
+    exists ((b - 128) + 128 * x). split; [subst v; lia|].
+    destruct f as [|f']; [cbn in Hx; lia|]. rewrite ulimit_S. lia.
+Qed.
+
+Lemma p_uvarint_value a v r :
+  p_uvarint a = Some (v, r) -> all_bytes a = true -> v < two64 /\ all_bytes r = true.
+Proof.
+  intros H B. unfold p_uvarint in H. apply uvar_loop_value in H; [|exact B].
+  destruct H as [(x & -> & Hx) Br]. rewrite ulimit_10 in Hx. split; [lia|exact Br].
+Qed.
+
+Lemma take_all_bytes n a h r :
+  take n a = Some (h, r) -> all_bytes a = true -> all_bytes h = true /\ all_bytes r = true /\ length h = n.
+Proof.
+  intros H B. apply take_spec in H. destruct H as [-> L]. rewrite all_bytes_app in B.
+  apply andb_true_iff in B. destruct B as [B1 B2]. repeat split; assumption.
+Qed.
+
+Lemma be_get_bound h : all_bytes h = true -> be_get h < 256 ^ N.of_nat (length h).
+Proof.
+  intro B. rewrite be_get_le_get, <- rev_length. apply le_get_bound. rewrite all_bytes_rev. exact B.
+Qed.
+
+Lemma unzigzag_range u : u < two64 -> (- two63 <=? unzigzag u)%Z && (unzigzag u <? two63)%Z = true.
+Proof.
+  unfold unzigzag, two64, two63. intro H.
+  assert (u / 2 < 9223372036854775808) by (apply N.div_lt_upper_bound; lia).
+  destruct (N.even u); lia.
+Qed.
+
+Lemma rep_dec_wf {A} (dec : nat -> parser A) (ok : nat -> A -> bool) :
+  (forall i a v r, dec i a = Some (v, r) -> all_bytes a = true -> ok i v = true /\ all_bytes r = true) ->
+  forall n i a l r, rep_dec dec i n a = Some (l, r) -> all_bytes a = true ->
+    rep_all ok i l = true /\ all_bytes r = true.
+Proof.
+  intro Hd. induction n as [|n IH]; intros i a l r H B.
+  - cbn in H. inversion H; subst. split; [reflexivity|exact B].
+  - cbn [rep_dec] in H. destruct (dec i a) as [[x t]|] eqn:E; [|discriminate].
+    destruct (rep_dec dec (S i) n t) as [[l0 t0]|] eqn:E2; [|discriminate].
+    inversion H; subst. apply Hd in E; [|exact B]. destruct E as [Ox Bt].
+    apply IH in E2; [|exact Bt]. destruct E2 as [Ol Br]. split; [|exact Br].
+    cbn [rep_all]. rewrite Ox, Ol. reflexivity.
+Qed.
+
+Theorem decode_wf : forall A (f : fmt A) a v r,
+  wfmt f -> all_bytes a = true -> decode f a = Some (v, r) ->
+  wf f v = true /\ all_bytes r = true.
+Proof.
+  induction f; intros a0 v0 r W HB Hd; cbn [decode wf wfmt] in *.
+  - (* FByte *) destruct a0 as [|x t]; [discriminate|]. inversion Hd; subst.
+    cbn [all_bytes forallb] in HB. apply andb_true_iff in HB. exact HB.
+  - (* FBool *) destruct a0 as [|x t]; [discriminate|]. cbn [p_bool] in Hd.
+    cbn [all_bytes forallb] in HB. apply andb_true_iff in HB. destruct HB as [_ HB].
+    destruct (x =? 0); [inversion Hd; subst; split; [reflexivity|exact HB]|].
+    destruct (x =? 1); [inversion Hd; subst; split; [reflexivity|exact HB]|discriminate].
+  - (* FBe *) rewrite cget_be_eq in Hd. unfold get_be in Hd.
+    destruct (take w a0) as [[h t]|] eqn:E; [|discriminate]. inversion Hd; subst.
+    apply take_all_bytes in E; [|exact HB]. destruct E as (Bh & Bt & L).
+    split; [|exact Bt]. apply N.ltb_lt. rewrite <- L. apply be_get_bound. exact Bh.
+  - (* FUvarint *) apply p_uvarint_value in Hd; [|exact HB]. destruct Hd as [Hv Br].
+    split; [apply N.ltb_lt; exact Hv|exact Br].
+  - (* FVarint *) unfold p_varint in Hd. destruct (p_uvarint a0) as [[u t]|] eqn:E; [|discriminate].
+    inversion Hd; subst. apply p_uvarint_value in E; [|exact HB]. destruct E as [Hu Bt].
+    split; [apply unzigzag_range; exact Hu|exact Bt].
+  - (* FFixed *) rewrite ctake_eq in Hd. apply take_all_bytes in Hd; [|exact HB].
+    destruct Hd as (_ & Bt & L). split; [apply Nat.eqb_eq; exact L|exact Bt].
+  - (* FBytes *) rewrite p_bytes_eq in Hd. unfold p_bytes_old, p_bytes_len_old in Hd.
+    destruct (p_uvarint a0) as [[m t]|] eqn:E; [|discriminate].
+    apply p_uvarint_value in E; [|exact HB]. destruct E as [Hm Bt].
+    destruct ((m <=? max) && (m <=? blen t)) eqn:L; [|discriminate].
+    apply andb_true_iff in L. destruct L as [L1 L2].
+    apply take_all_bytes in Hd; [|exact Bt]. destruct Hd as (_ & Br & Lh).
+    split; [|exact Br]. unfold blen. rewrite Lh. rewrite Nnat.N2Nat.id.
+    apply andb_true_iff. split; [exact L1|apply N.ltb_lt; exact Hm].
+  - (* FConst *) inversion Hd; subst. split; [exact W|exact HB].
+  - (* FSeq *) destruct W as [W1 W2].
+    destruct (decode f1 a0) as [[x t]|] eqn:E1; [|discriminate].
+    destruct (decode f2 t) as [[y t']|] eqn:E2; [|discriminate]. inversion Hd; subst.
+    apply IHf1 in E1; [|exact W1|exact HB]. destruct E1 as [Wx Bt].
+    apply IHf2 in E2; [|exact W2|exact Bt]. destruct E2 as [Wy Br].
+    cbn [fst snd]. rewrite Wx, Wy. split; [reflexivity|exact Br].
+  - (* FBind *) destruct W as [W1 W2].
+    destruct (decode f a0) as [[x t]|] eqn:E1; [|discriminate].
+    destruct (decode (k x) t) as [[y t']|] eqn:E2; [|discriminate]. inversion Hd; subst.
+    apply IHf in E1; [|exact W1|exact HB]. destruct E1 as [Wx Bt].
+    apply H in E2; [|apply W2|exact Bt]. destruct E2 as [Wy Br].
+    cbn [fst snd]. rewrite Wx, Wy. split; [reflexivity|exact Br].
+  - (* FMapD *) destruct W as [W1 W2].
+    destruct (decode f a0) as [[x t]|] eqn:E1; [|discriminate]. inversion Hd; subst.
+    apply IHf in E1; [|exact W1|exact HB]. destruct E1 as [Wx Bt].
+    destruct (W2 x Wx) as [D F]. rewrite D, F, Wx. split; [reflexivity|exact Bt].
+  - (* FGuard *)
+    destruct (decode f a0) as [[x t]|] eqn:E1; [|discriminate].
+    destruct (ok x) eqn:O; [|discriminate]. inversion Hd; subst.
+    destruct W as [W|W]; [rewrite W in O; discriminate|].
+    apply IHf in E1; [|exact W|exact HB]. destruct E1 as [Wx Bt]. rewrite Wx, O. split; [reflexivity|exact Bt].
+  - (* FOpt *)
+    destruct a0 as [|x t]; [discriminate|].
+    cbn [all_bytes forallb] in HB. apply andb_true_iff in HB. destruct HB as [_ HB].
+    destruct (x =? 0); [inversion Hd; subst; split; [reflexivity|exact HB]|].
+    destruct (x =? 1); [|discriminate].
+    destruct (decode f t) as [[y t']|] eqn:E1; [|discriminate]. inversion Hd; subst.
+    apply IHf in E1; [|exact W|exact HB]. exact E1.
+  - (* FList *)
+    destruct W as (Wk & Wm & Wf). rewrite p_count_eq in Hd. unfold p_count_old in Hd.
+    assert (Hel : forall i a v t, decode (f i) a = Some (v, t) -> all_bytes a = true ->
+                                  wf (f i) v = true /\ all_bytes t = true).
+    { intros i a v t E Ba. eapply H; [apply Wf|exact Ba|exact E]. }
+    unfold two64 in Wm.
+    destruct ck; cbn [ck_rem ck_nilable] in *; try discriminate.
+    + (* CKConst *)
+      destruct (p_uvarint a0) as [[n t]|] eqn:E; [|discriminate].
+      apply p_uvarint_value in E; [|exact HB]. destruct E as [Hn Bt].
+      destruct (n <=? max) eqn:L; [|discriminate].
+      destruct (rep_dec (fun i => decode (f i)) 0 (N.to_nat n) t) as [[l t']|] eqn:E2; [|discriminate].
+      inversion Hd; subst. pose proof (rep_dec_length _ _ _ _ _ _ E2) as Ll.
+      apply (rep_dec_wf _ (fun i => wf (f i)) Hel) in E2; [|exact Bt]. destruct E2 as [Al Br].
+      split; [|exact Br]. unfold blen. rewrite Ll, Nnat.N2Nat.id, Al.
+      assert (X1 : (n <? two64 - 1) = true) by (unfold two64; lia). rewrite X1, L. reflexivity.
+    + (* CKNilable *)
+      destruct (p_uvarint a0) as [[n t]|] eqn:E; [|discriminate].
+      apply p_uvarint_value in E; [|exact HB]. destruct E as [Hn Bt]. unfold two64 in Hn.
+      destruct (n =? 0) eqn:Z; [inversion Hd; subst; split; [reflexivity|exact Bt]|].
+      destruct (n - 1 <=? max) eqn:L; [|discriminate].
+      destruct (rep_dec (fun i => decode (f i)) 0 (N.to_nat (n - 1)) t) as [[l t']|] eqn:E2; [|discriminate].
+      inversion Hd; subst. pose proof (rep_dec_length _ _ _ _ _ _ E2) as Ll.
+      apply (rep_dec_wf _ (fun i => wf (f i)) Hel) in E2; [|exact Bt]. destruct E2 as [Al Br].
+      split; [|exact Br]. unfold blen. rewrite Ll, Nnat.N2Nat.id, Al.
+      assert (X1 : (n - 1 <? two64 - 1) = true) by (unfold two64; lia). rewrite X1, L. reflexivity.
+Qed.
+
+(* the whole-input form *)
+Theorem decode_full_wf : forall A (f : fmt A) a v,
+  wfmt f -> all_bytes a = true -> decode_full f a = Some v -> wf f v = true.
+Proof.
+  intros A f a v W B H. unfold decode_full in H.
+  destruct (decode f a) as [[v' r]|] eqn:E; [|discriminate]. destruct r; [|discriminate].
+  inversion H; subst. eapply decode_wf; eassumption.
+Qed.
